@@ -4,7 +4,8 @@
 (*                                                                         *)
 (*  ArcsOK      - the property: what a correct neighbour list is           *)
 (*  ScanNode    - create_arcs' insertion window, transcribed loop for loop *)
-(*  Design check (Knn.cfg): for every symmetric rank matrix n <= 5 with    *)
+(*  Design check (Knn.*.cfg): for every symmetric rank matrix n <= 5 (and  *)
+(*  every directed one for n = 3, binary n = 4) with                       *)
 (*  ties and zeros and every k >= 1 (also k > n-1), ScanNode satisfies     *)
 (*  ArcsOK and the radius / per-rank maxima / bound facts.                 *)
 (*  Density terms (PdfTerm, ...) state the real-valued closed forms as     *)
@@ -12,19 +13,24 @@
 (*  the observed discrete structure and evaluated outside (mechanism D).   *)
 (***************************************************************************)
 EXTENDS Integers, FiniteSets, Sequences, TLC
-CONSTANTS N,      \* number of samples
-          MaxW,   \* distances (ranks) range over 0..MaxW
-          MaxK    \* k ranges over 1..MaxK
+CONSTANTS N,        \* number of samples
+          MaxW,     \* distances (ranks) range over 0..MaxW
+          MaxK,     \* k ranges over 1..MaxK
+          Directed  \* FALSE: symmetric dissimilarities; TRUE: d(i, j) and d(j, i) are independent (non-symmetric
+                    \* identifiers, arbitrary pre-computed matrices) - a sample's neighbours are those nearest FROM it
 Nodes == 1..N
 INF == 100000
-Pairs == {pr \in Nodes \X Nodes : pr[1] < pr[2]}
+UPairs == {pr \in Nodes \X Nodes : pr[1] < pr[2]}
+Pairs == {pr \in Nodes \X Nodes : pr[1] # pr[2]}        \* ordered pairs: W[<<i, j>>] is the distance from i to j
 VARIABLES W, k
 kvars == <<W, k>>
-Dist(a, b) == IF a = b THEN 0 ELSE IF a < b THEN W[<<a, b>>] ELSE W[<<b, a>>]
+Dist(a, b) == IF a = b THEN 0 ELSE W[<<a, b>>]
+Sym(S) == [pr \in Pairs |-> IF pr[1] < pr[2] THEN S[pr] ELSE S[<<pr[2], pr[1]>>]]
 Min2(a, b) == IF a < b THEN a ELSE b
 Max2(a, b) == IF a > b THEN a ELSE b
 
-Init == W \in [Pairs -> 0..MaxW] /\ k \in 1..MaxK
+Init == /\ IF Directed THEN W \in [Pairs -> 0..MaxW] ELSE \E S \in [UPairs -> 0..MaxW] : W = Sym(S)
+        /\ k \in 1..MaxK
 Next == UNCHANGED kvars
 Spec == Init /\ [][Next]_kvars
 
